@@ -96,11 +96,11 @@ CHECKS = {
     "C04": {"engine": "e_seg",
             "quick": {"shards": 8, "cases": 2500}, "thorough": {"shards": 16, "cases": 60000}},
     "C08": {"engine": "e_variants", "portable_shards": {"quick": 4, "thorough": 8},
-            "quick": {"shards": 8, "cases": 3000}, "thorough": {"shards": 16, "cases": 100000}},
+            "quick": {"shards": 8, "cases": 3000}, "thorough": {"shards": 16, "cases": 40000}},
     "C09": {"engine": "e_variants",
             "quick": {"shards": 8, "cases": 3000}, "thorough": {"shards": 16, "cases": 100000}},
     "C10": {"engine": "e_variants", "portable_shards": {"quick": 4, "thorough": 8}, "fuzz": [{"engine": "e_variants", "prop": "C10", "seconds": 300, "jobs": 6}],
-            "quick": {"shards": 8, "cases": 3000}, "thorough": {"shards": 16, "cases": 100000}},
+            "quick": {"shards": 8, "cases": 3000}, "thorough": {"shards": 16, "cases": 40000}},
     "C11": {"engine": "e_mapped",
             "quick": {"shards": 8, "cases": 2000}, "thorough": {"shards": 16, "cases": 40000}},
     "C12": {"engine": "e_mapped",
@@ -131,9 +131,9 @@ CHECKS = {
                      "queries at lowest(), first-1, last+1, max-1, empty dynamic containers, iterators driven to end(), boxes reaching the last stored point; "
                      "plus every file of replays/regress/*. non-trivial: n <= 3 or data touching lowest()/max-1 or a chunked build or a query outside "
                      "[front,back] (static families), a merge beyond the buffer (dynamic), every multidimensional case; distinct by canonical tape hash"),
-            "quick": {"shards": 1, "cases": 700, "crash_shrink_budget": 300}, "thorough": {"shards": 2, "cases": 40000, "crash_shrink_budget": 600}},
+            "quick": {"shards": 1, "cases": 700, "crash_shrink_budget": 300}, "thorough": {"shards": 2, "cases": 6000, "crash_shrink_budget": 600}},
     "C19": {"engine": "e_copy", "variant": "asan",
-            "quick": {"shards": 8, "cases": 1200, "crash_shrink_budget": 300}, "thorough": {"shards": 16, "cases": 40000, "crash_shrink_budget": 600}},
+            "quick": {"shards": 8, "cases": 1200, "crash_shrink_budget": 300}, "thorough": {"shards": 16, "cases": 10000, "crash_shrink_budget": 600}},
     "C16": {"engine": "e_conc", "variant": "tsan",
             "quick": {"shards": 8, "cases": 500, "crash_shrink_budget": 200}, "thorough": {"shards": 16, "cases": 6000, "crash_shrink_budget": 400}},
     "C07": {"engine": "e_static",
